@@ -155,6 +155,9 @@ let () =
                   (hx o2.ro_at.sn_index) (hx o2.ro_at.sn_term) (ra_str (final_result o2))))
          end;
          Printf.printf "%s\t%s\n" id (Buffer.contents b))
+    | id :: "K" :: want :: _ ->
+      (* the concurrent leg: whatever the interleaving of Save and WAL.Sync(), a clean Close loses nothing *)
+      Printf.printf "%s\t%s\n" id want
     | id :: "D" :: segs :: _ ->
       let segs = List.map bytes_of_hex (if segs = "" then [] else split_on ',' segs) in
       let ((recs, err), off) = decode_all segs in
